@@ -167,7 +167,19 @@ fn engine_mode(scen_path: &str, logp: &str, db: &str) {
             if let Some(d) = r.get("delay_ms").and_then(|d| d.as_u64()) {
                 delay = d;
             }
-            if let Some(sig) = r.get("signal").and_then(|s| s.as_str()) {
+            if let (Some(sig), Some(after)) = (r.get("signal").and_then(|s| s.as_str()), r.get("after_reply_ms").and_then(|a| a.as_u64())) {
+                // deliver the signal some time AFTER this request has been answered (the CLI is then busy with whatever follows:
+                // a sleep record, a retry back-off, a system command)
+                if let Some(p) = cli_pid() {
+                    let s = if sig == "KILL" { libc::SIGKILL } else { libc::SIGINT };
+                    let (logp2, db2, sig2) = (logp.to_string(), db.to_string(), sig.to_string());
+                    std::thread::spawn(move || {
+                        sleep_ms(after);
+                        log(&logp2, json!({"t": now_ns().to_string(), "pid": pid, "db": db2, "ev": "SIGNAL", "sig": sig2, "to": p}));
+                        unsafe { libc::kill(p, s) };
+                    });
+                }
+            } else if let Some(sig) = r.get("signal").and_then(|s| s.as_str()) {
                 if let Some(p) = cli_pid() {
                     let s = if sig == "KILL" { libc::SIGKILL } else { libc::SIGINT };
                     log(logp, json!({"t": now_ns().to_string(), "pid": pid, "db": db, "ev": "SIGNAL", "sig": sig, "to": p}));
